@@ -21,6 +21,7 @@ import (
 	"math/rand"
 	"os"
 	"reflect"
+	"runtime/pprof"
 	"sort"
 
 	"github.com/attestantio/go-eth2-client/spec"
@@ -234,12 +235,14 @@ type proc struct {
 }
 
 type world struct {
-	full bool
-	db   basedb.Database
-	p    *proc
-	res  *vh.Result
-	beh  string
-	step int
+	full     bool
+	db       basedb.Database
+	prefix   string
+	readHist bool
+	p        *proc
+	res      *vh.Result
+	beh      string
+	step     int
 	// monitor bookkeeping, from real outputs only
 	restarts   int
 	incMax     int          // highest height started / learned as decided by this incarnation (-1 none)
@@ -249,19 +252,31 @@ type world struct {
 	histInc    map[int]bool // historical records written by this incarnation
 }
 
+// one in-memory badger database for the whole run (opening one per behaviour costs far more than the protocol
+// work); every behaviour gets its own storage prefix, i.e. its own empty ibft store.
+var (
+	sharedDB basedb.Database
+	worldSeq int
+)
+
 func newWorld(full bool, res *vh.Result, beh string) *world {
-	db, err := kv.NewInMemory(logger, basedb.Options{Ctx: context.Background()})
-	if err != nil {
-		panic(err)
+	if sharedDB == nil {
+		db, err := kv.NewInMemory(logger, basedb.Options{Ctx: context.Background()})
+		if err != nil {
+			panic(err)
+		}
+		sharedDB = db
 	}
-	w := &world{full: full, db: db, res: res, beh: beh, incMax: -1, loadMax: -1, everDec: -1,
+	worldSeq++
+	w := &world{full: full, db: sharedDB, prefix: fmt.Sprintf("w%d-%s", worldSeq, spectypes.BNRoleAttester.String()),
+		res: res, beh: beh, incMax: -1, loadMax: -1, everDec: -1,
 		startedInc: map[int]bool{}, histInc: map[int]bool{}}
 	w.p = w.boot(false)
 	return w
 }
 
 func (w *world) realStore() qbftstorage.QBFTStore {
-	return ibftstorage.New(w.db, spectypes.BNRoleAttester.String())
+	return ibftstorage.New(w.db, w.prefix)
 }
 
 // boot = what the node does at start-up for this validator: runners around new controllers, Validator.Start.
@@ -325,12 +340,13 @@ type recObs struct {
 }
 
 type obs struct {
-	Height int            `json:"height"`
-	Stored []instObs      `json:"stored"`
-	Has    bool           `json:"has"`
-	Run    int            `json:"run"`
-	Hi     recObs         `json:"hi"`
-	Hist   map[int]recObs `json:"hist"`
+	Height   int            `json:"height"`
+	Stored   []instObs      `json:"stored"`
+	Has      bool           `json:"has"`
+	Run      int            `json:"run"`
+	Hi       recObs         `json:"hi"`
+	Hist     map[int]recObs `json:"hist"`
+	HistRead bool           `json:"-"`
 }
 
 func stateObs(st *specqbft.State, run, stop bool) instObs {
@@ -385,6 +401,10 @@ func (w *world) observe() obs {
 		panic(err)
 	}
 	o.Hi = recOf(hi)
+	if !w.full && !w.readHist {
+		return o // a light node never writes historical records: checked at restarts and at the end only
+	}
+	o.HistRead = true
 	for h := 0; h <= maxH; h++ {
 		si, err := s.GetInstance(msgID[:], specqbft.Height(h))
 		if err != nil {
@@ -451,8 +471,10 @@ func (w *world) compare(sp, re obs) bool {
 	d("runner", [2]any{sp.Has, sp.Run}, [2]any{re.Has, re.Run})
 	d("stored", sp.Stored, re.Stored)
 	d("db.hi", sp.Hi, re.Hi)
-	for h, r := range sp.Hist {
-		d(fmt.Sprintf("db.hist[%d]", h), r, re.Hist[h])
+	if re.HistRead {
+		for h, r := range sp.Hist {
+			d(fmt.Sprintf("db.hist[%d]", h), r, re.Hist[h])
+		}
 	}
 	return ok
 }
@@ -627,6 +649,7 @@ func replay(b vh.Behaviour, res *vh.Result) {
 			panic("unknown action " + name)
 		}
 		if st.State != nil && i > 0 {
+			w.readHist = i == len(b.Steps)-1 || vh.Str(a, "name") == "Restart"
 			w.compare(specObs(st.State), w.observe())
 		}
 	}
@@ -653,14 +676,13 @@ func summary(o obs) map[string]any {
 		"hi": map[string]any{"h": o.Hi.H, "cr": o.Hi.Cr, "n": o.Hi.N}, "hist": hist}
 }
 
-func record(path string, seed int64, runs int, res *vh.Result) {
+func record(path string, seed int64, runs int, full bool, res *vh.Result) {
 	tw, err := vh.NewTraceWriter(path)
 	if err != nil {
 		panic(err)
 	}
 	rng := rand.New(rand.NewSource(seed))
 	for k := 0; k < runs; k++ {
-		full := rng.Intn(2) == 0
 		beh := fmt.Sprintf("own-%d", k)
 		w := newWorld(full, res, beh)
 		tw.Emit(map[string]any{"event": "Reset", "full": full})
@@ -708,6 +730,7 @@ func record(path string, seed int64, runs int, res *vh.Result) {
 			default:
 				continue
 			}
+			w.readHist = true
 			ev["obs"] = summary(w.observe())
 			tw.Emit(ev)
 			res.Steps++
@@ -738,7 +761,14 @@ func main() {
 	seed := flag.Int64("seed", 1, "seed")
 	runs := flag.Int("runs", 100, "number of own executions")
 	flag.IntVar(&maxH, "maxh", 3, "highest height / slot")
+	full := flag.Bool("full", false, "record mode: full node")
+	prof := flag.String("cpuprofile", "", "write a CPU profile")
 	flag.Parse()
+	if *prof != "" {
+		f, _ := os.Create(*prof)
+		_ = pprof.StartCPUProfile(f)
+		defer pprof.StopCPUProfile()
+	}
 	res := vh.NewResult()
 	switch *mode {
 	case "replay":
@@ -757,7 +787,7 @@ func main() {
 			res.Samples = append(res.Samples, behs[len(behs)/2])
 		}
 	case "record":
-		record(*trace, *seed, *runs, res)
+		record(*trace, *seed, *runs, *full, res)
 	}
 	if err := res.Write(*out); err != nil {
 		fmt.Fprintln(os.Stderr, err)
